@@ -31,6 +31,9 @@ def run_property(prop, tier, report):
         if "rc=3" in str(e):
             raise ToolError("spec/Decl.tla disagrees with the reference WIT toolchain (a defect of the specification):\n" + str(e))
         raise
+    # (declcheck --prop C08 also reports, under classes c01_*, whether the graph that instantiates each
+    # component encodes to a valid component: those findings belong to C01)
+    findings = [f for f in findings if not f.get("class", "").startswith("c01_")]
     report.add_findings(findings, "declcheck")
     cov = report.coverage
     cov["states"] = max(stats["distinct"], 1)
@@ -64,3 +67,11 @@ def run_property(prop, tier, report):
     cov["samples"] = [{"package": 20, "world": "wex"}]
     report.assumptions.append("cross-package `use`, world-level `use` and value-kinded items are not generated; "
                               "the reference toolchain decides disagreements between Decl.tla and itself (exit 2, not a violation)")
+
+
+def c01_findings(tier):
+    """C01 over the component corpus of C08: (findings, summary)"""
+    path, _ = artefacts(tier)
+    build_harness()
+    findings, summary = pipe_gz_to([hbin("declcheck"), "--data", os.path.join(HARNESS, "data"), "--prop", "C08"], [path], timeout=3600)
+    return [f for f in findings if f.get("class", "").startswith("c01_")], summary
